@@ -1,4 +1,5 @@
 import TantivyModel.Proofs.GC
+import TantivyModel.Proofs.Storage
 /-!
 # C10 — Garbage collection never removes a needed file and leaves no orphan
 -/
@@ -229,5 +230,279 @@ example : (demo.run (fullGCSteps demo [])).dir = (fullGC demo []).dir
     ∧ (demo.run (fullGCSteps demo [])).managed = (fullGC demo []).managed := by decide
 /-- without the discipline safety fails: a meta that resurrects a file GC already selected -/
 example : Disc demo [.gcCompute, .track [30], .gcDelete 30 true] = false := by decide
+
+/-! ## fine-grained collection, loading reader, emptied segments (guards extracted from the source) -/
+
+/-- the extracted orders satisfy the guards (a change of the order of these calls in
+`garbage_collect`, `open_segment_readers` or `committed_segment_metas` breaks this theorem) -/
+theorem C10_extracted_orders :
+    gcLivingUnderLocks Gen.GC_STEP_ORDER = true ∧ gcSyncBeforeForget Gen.GC_STEP_ORDER = true ∧
+    readerListsUnderLock Gen.READER_STEP_ORDER = true ∧
+    dropsEmptyBeforeListing Gen.COMMITTED_METAS_CALLS = true := by decide
+
+/-- an idle state (no collection in flight, no lock held, meta.json's files exist and are
+protected by live metas) satisfies the fine-grained invariant -/
+theorem C10_finv_idle (s : St) (mf : List Path) (hp : s.pending = none)
+    (hm : ∀ p ∈ mf, p ∈ living s ∧ p ∈ s.dir) : FInv { base := s, metaFiles := mf } := by
+  refine ⟨C10_ginv_of_idle s hp, ?_, hm, ?_, fun _ => rfl, fun h => by cases h⟩
+  · intro L hL; cases hL
+  · intro F hF; cases hF
+
+/-- **atomicity of the living set is derived, not assumed**: in the fine-grained model —
+`garbage_collect` as separate steps (locks, living callback, selection, unlock, deletes, finish),
+a reader as separate steps (lock, read meta.json, open files, unlock), the lock semantics, and
+writer threads that track / drop metas, create files and publish meta.json — with the step
+orders EXTRACTED from the source, every interleaving that respects the writer discipline is
+safe: no delete hits a needed file and every file a loading reader opens exists. -/
+theorem C10_gc_and_reader_safe (s : FSt) (h : FInv s) (evs : List FEv)
+    (hd : FDisc (gcLivingUnderLocks Gen.GC_STEP_ORDER) (readerListsUnderLock Gen.READER_STEP_ORDER) s evs = true) :
+    FSafe s evs := by
+  have h1 : gcLivingUnderLocks Gen.GC_STEP_ORDER = true := C10_extracted_orders.1
+  have h2 : readerListsUnderLock Gen.READER_STEP_ORDER = true := C10_extracted_orders.2.2.1
+  rw [h1, h2] at hd
+  exact h.safe evs hd
+
+/-- state of the examples: committed segment {10,11} listed in meta.json, a worker's segment
+{20,21} (21 not yet created), leftovers 30 -/
+def fdemo : FSt :=
+  { base := { dir := [0, 10, 11, 20, 30], managed := [0, 10, 11, 20, 30], live := [[10, 11], [20, 21]],
+              pending := none, deleted := [], failed := [] },
+    metaFiles := [10, 11] }
+
+example : FInv fdemo := C10_finv_idle _ _ rfl (by decide)
+/-- non-vacuity: a collection, a worker, a commit that replaces the segment and a reader, interleaved -/
+example : FDisc true true fdemo
+    [.gLock, .gLiving, .track [40, 41], .gSelect, .gUnlock, .openWrite 21, .openWrite 40, .rLock, .rList,
+     .gDelete 30 true, .rOpen 10, .openWrite 41, .publish [40, 41], .drop 1, .rOpen 11, .rUnlock, .gFinish,
+     .gLock, .gLiving, .gSelect, .gUnlock, .gDelete 10 true, .gDelete 11 true, .gFinish] = true := by decide
+
+/-- `C10_living_before_lock_counterexample`: if the living callback ran BEFORE the locks
+(`gcUnder = false`), the discipline admits: living computed; a worker starts a new segment and
+creates its first file; locks, selection, unlock; the delete of that file — a needed file. -/
+theorem C10_living_before_lock_counterexample :
+    let evs : List FEv := [.gLiving, .track [50, 51], .openWrite 50, .gLock, .gSelect, .gUnlock]
+    FDisc false true fdemo (evs ++ [.gDelete 50 true]) = true ∧ 50 ∈ needed (fdemo.run evs).base := by
+  decide
+
+/-- `C10_reader_lists_before_lock_counterexample`: if the reader read meta.json BEFORE taking
+META_LOCK (`rdUnder = false`), the discipline admits: reader lists {10,11}; a commit publishes a
+new segment and drops the old one; a collection deletes 10; the reader locks and opens 10 — gone. -/
+theorem C10_reader_lists_before_lock_counterexample :
+    let evs : List FEv := [.rList, .track [40], .openWrite 40, .publish [40], .drop 1,
+      .gLock, .gLiving, .gSelect, .gUnlock, .gDelete 10 true, .rLock]
+    FDisc true false fdemo (evs ++ [.rOpen 10]) = true ∧ 10 ∉ (fdemo.run evs).base.dir := by
+  decide
+
+/-- **a commit leaves nothing but what meta.json lists** (emptied segments): with
+`committed_segment_metas` dropping the emptied entries from the committed register before it
+lists the metas (extracted order), the live metas after the commit are exactly the listed ones,
+so after one complete collection every remaining file is `meta.json` or a file of a segment that
+meta.json lists. -/
+theorem C10_commit_drops_emptied_segments (s : St) (reg : List SegEntry)
+    (hreg : ∀ p ∈ s.dir, p ∈ s.managed)
+    (hlive : s.live = (committedMetas (dropsEmptyBeforeListing Gen.COMMITTED_METAS_CALLS) reg).1.map SegEntry.files) :
+    ∀ p ∈ (fullGC s []).dir, p = META ∨
+      ∃ e ∈ (committedMetas (dropsEmptyBeforeListing Gen.COMMITTED_METAS_CALLS) reg).2, p ∈ e.files := by
+  have hg : dropsEmptyBeforeListing Gen.COMMITTED_METAS_CALLS = true := C10_extracted_orders.2.2.2
+  rw [hg] at hlive ⊢
+  intro p hp
+  have hl := C10_no_orphans_quiescent s hreg p hp
+  simp only [living, List.mem_cons, List.mem_flatten] at hl
+  rcases hl with h0 | ⟨l, hl, hpl⟩
+  · exact Or.inl h0
+  · right
+    rw [hlive] at hl
+    simp only [committedMetas, if_true, List.mem_map] at hl
+    obtain ⟨e, he, rfl⟩ := hl
+    exact ⟨e, by simpa [committedMetas] using he, hpl⟩
+
+/-- without the drop (`dropEmpty = false`) the files of a fully deleted segment survive the
+commit's collection although meta.json does not list the segment -/
+theorem C10_emptied_segment_counterexample :
+    let reg : List SegEntry := [⟨[10, 11], 3⟩, ⟨[20, 21], 0⟩]
+    let s : St := { dir := [0, 10, 11, 20, 21], managed := [0, 10, 11, 20, 21],
+                    live := (committedMetas false reg).1.map SegEntry.files, pending := none, deleted := [], failed := [] }
+    20 ∈ (fullGC s []).dir ∧ ∀ e ∈ (committedMetas false reg).2, 20 ∉ e.files := by
+  decide
+
+example : (committedMetas true [⟨[10, 11], 3⟩, ⟨[20, 21], 0⟩]).1 = [⟨[10, 11], 3⟩] := by decide
+
+/-- **after a crash, lifted**: the side condition of `C10_after_crash_partial` ("every existing
+file is listed in the image's .managed.json") is no longer assumed but derived. For every
+storage trace from the empty directory that respects R1–R3 (decided on the real log on every
+run), every prefix and every crash image in which the newest `.managed.json` survived (and which
+lists `meta.json`, as `Index::create` makes it do: hypothesis `hmeta`), recovery followed by one complete
+collection leaves only `meta.json` and files of the recovered commit.
+What remains false is the same statement for images with an OLDER `.managed.json`
+(`C10_managed_rename_counterexample`, finding S2). -/
+theorem C10_after_crash_registered (t : List Op) (hd : RegDisc Dir.empty t) (k : Nat) (img : LImage)
+    (hn : (img.files.map Prod.fst).Nodup)
+    (hi : CrashImage (Dir.empty.run (t.take k)) img.toImage)
+    (hm : lookupD img.atoms MANAGED = ((Dir.empty.run (t.take k)).atom MANAGED).visible)
+    (hmeta : ∃ b, lookupD img.atoms MANAGED = some b ∧ META ∈ b.refs) :
+    ∀ p ∈ (fullGC (ofImage img) []).dir, p ∈ living (ofImage img) := by
+  apply C10_after_crash_partial
+  intro p hp
+  simp only [ofImage, List.mem_append, List.mem_filterMap] at hp
+  rcases hp with ⟨e, he, hpe⟩ | ⟨e, he, hpe⟩
+  · -- a regular file of the image
+    obtain ⟨q, v⟩ := e
+    cases v with
+    | none => simp at hpe
+    | some w =>
+      simp only [Option.map_some, Option.some.injEq] at hpe
+      subst hpe
+      have hl : img.toImage.file q = some w := lookupD_of_mem_nodup img.files hn q (some w) he
+      obtain ⟨b, hb, hq⟩ := C10_existing_files_are_managed Dir.empty C10_rinv_empty t hd k img.toImage hi hm q
+        (by rw [hl]; simp)
+      have hb' : lookupD img.atoms MANAGED = some b := hb
+      simp only [ofImage, hb']
+      exact hq
+  · -- meta.json itself
+    obtain ⟨q, v⟩ := e
+    cases v with
+    | none => simp at hpe
+    | some w =>
+      by_cases hq : q = META
+      · simp only [hq, if_true, Option.some.injEq] at hpe
+        subst hpe
+        obtain ⟨b, hb, hmb⟩ := hmeta
+        simp only [ofImage, hb]
+        exact hmb
+      · simp [hq] at hpe
+
+/-- a log in which file 2 is registered, created, written; then the crash -/
+def regTrace : List Op :=
+  [ .atomicWrite MANAGED ⟨0, 0, 14, [0]⟩, .syncDir, .syncDir, .atomicWrite META ⟨0, 1, 90, []⟩, .syncDir,
+    .atomicWrite MANAGED ⟨0, 2, 30, [0, 2]⟩, .create 2, .write 2 5 ]
+
+/-- non-vacuity of `C10_after_crash_registered`: the image "everything applied" of `regTrace` -/
+example : ∀ p ∈ (fullGC (ofImage (Dir.empty.run regTrace).allApplied) []).dir,
+    p ∈ living (ofImage (Dir.empty.run regTrace).allApplied) := by
+  have hd : RegDisc Dir.empty regTrace := by
+    simp [regTrace, RegDisc, RegOK, Dir.step, Dir.empty, visibleManaged, AtomSt.visible, AtomSt.sync, upd,
+      FileSt.mayPresent, FileSt.sync, MANAGED, META]
+  have hi := quickImages_sound (Dir.empty.run regTrace) (cover_empty.run regTrace)
+    ⟨0, 0, 0, (Dir.empty.run regTrace).allApplied⟩ (by simp [quickImages])
+  exact C10_after_crash_registered regTrace hd regTrace.length _ (by decide)
+    (by simpa using hi) (by decide) ⟨⟨0, 2, 30, [0, 2]⟩, by decide, by decide⟩
+
+/-- **the small-step collection refines the big-step one**: from every idle state, running
+`gcCompute`, one `gcDelete` per selected path (with the given failures) and `gcFinish` ends with
+the same directory and the same managed set as `fullGC` (as sets), no collection in flight. So
+the quiescent theorems stated on `fullGC` hold for the event model `C10_gc_safe` speaks about. -/
+theorem C10_small_step_refines_fullGC (s : St) (fails : List Path) :
+    let r := s.run (fullGCSteps s fails)
+    (∀ p, p ∈ r.dir ↔ p ∈ (fullGC s fails).dir) ∧ (∀ p, p ∈ r.managed ↔ p ∈ (fullGC s fails).managed) ∧
+    r.pending = none := by
+  intro r
+  let T := s.managed.filter (fun p => !(living s).contains p)
+  let s1 := s.step .gcCompute
+  have h1 : LoopInv s1 T fails [] s1 := by
+    refine ⟨?_, rfl, rfl, ?_, ?_⟩
+    · simp [s1, St.step, T]
+    · intro p; simp
+    · intro p; simp [s1, St.step]
+  have hD : ∀ q ∈ (dedup T), q ∈ T := fun q hq => (mem_dedup T q).mp hq
+  have h2 := LoopInv.run (s0 := s1) (T := T) (fails := fails) (dedup T) hD (nodup_dedup T) [] (by simp) s1 h1
+  simp only [List.nil_append] at h2
+  have hr : r = ((s1.run ((dedup T).map (fun p => Ev.gcDelete p (!fails.contains p)))).step .gcFinish) := by
+    simp [r, fullGCSteps, St.run, List.foldl_append, s1, T]
+  have hpend : (s1.run ((dedup T).map (fun p => Ev.gcDelete p (!fails.contains p)))).pending = some [] := by
+    rw [h2.pending]
+    congr 1
+    apply List.filter_eq_nil_iff.mpr
+    intro p hp'
+    simp [(mem_dedup T p).mpr hp']
+  rw [hr]
+  generalize s1.run ((dedup T).map (fun p => Ev.gcDelete p (!fails.contains p))) = st2 at h2 hpend
+  refine ⟨?_, ?_, ?_⟩
+  · intro p
+    simp only [St.step, hpend]
+    rw [h2.dir p, mem_fullGC_dir, mem_fullGC_deleted]
+    simp only [s1, St.step, T, List.mem_filter, mem_dedup, Bool.not_eq_true', List.contains_eq_mem,
+      decide_eq_false_iff_not]
+    constructor
+    · rintro ⟨h3, h4⟩
+      exact ⟨h3, fun ⟨hm, hl, hf⟩ => h4 ⟨⟨hm, hl⟩, ⟨hm, hl⟩, hf⟩⟩
+    · rintro ⟨h3, h4⟩
+      exact ⟨h3, fun ⟨⟨hm, hl⟩, _, hf⟩ => h4 ⟨hm, hl, hf⟩⟩
+  · intro p
+    simp only [St.step, hpend, List.mem_filter, Bool.not_eq_true', List.contains_eq_mem, decide_eq_false_iff_not]
+    rw [h2.managed, h2.deleted p, mem_fullGC_managed, mem_fullGC_deleted]
+    simp only [s1, St.step, T, List.mem_filter, mem_dedup, Bool.not_eq_true', List.contains_eq_mem,
+      decide_eq_false_iff_not]
+    constructor
+    · rintro ⟨h3, h4⟩
+      exact ⟨h3, fun ⟨hm, hl, hf⟩ => h4 ⟨⟨hm, hl⟩, ⟨hm, hl⟩, hf⟩⟩
+    · rintro ⟨h3, h4⟩
+      exact ⟨h3, fun ⟨⟨hm, hl⟩, _, hf⟩ => h4 ⟨hm, hl, hf⟩⟩
+  · simp only [St.step, hpend]
+
+
+example : (demo.run (fullGCSteps demo [30])).failed = [30] := by decide
+
+/-- **registration-before-create is a property of the code shape**: `ManagedDirectory::open_write`
+with its two steps in the EXTRACTED order (register, then create) satisfies R1–R3 in every state,
+for every path and every new managed list that contains the path and everything that may still
+be on disk (the in-memory set only grows here). Together with
+`C10_existing_files_are_managed` this derives rule R1 from the source instead of observing it. -/
+theorem C10_open_write_registers_first (s : Dir) (mg : Payload) (p : Path) (hp : p ∈ mg.refs)
+    (hall : ∀ q, (s.file q).mayPresent = true → q ∈ mg.refs) :
+    RegDisc s (managedOpenWriteOps Gen.MANAGED_OPEN_WRITE_STEPS mg p) := by
+  have ho : Gen.MANAGED_OPEN_WRITE_STEPS = [1, 2] := by decide
+  rw [ho]
+  refine ⟨fun _ => hall, ?_, trivial⟩
+  show p ∈ visibleManaged (s.step (.atomicWrite MANAGED mg))
+  simp [visibleManaged, Dir.step, AtomSt.visible, hp]
+
+/-- the swapped order (create, then register) breaks R1 in the empty directory -/
+example : ¬ RegDisc Dir.empty (managedOpenWriteOps [2, 1] ⟨0, 0, 5, [0, 2]⟩ 2) := by
+  simp [managedOpenWriteOps, RegDisc, RegOK, Dir.empty, visibleManaged, AtomSt.visible]
+
+example : RegDisc Dir.empty (managedOpenWriteOps Gen.MANAGED_OPEN_WRITE_STEPS ⟨0, 0, 5, [0, 2]⟩ 2) :=
+  C10_open_write_registers_first _ _ _ (by decide) (by intro q h; simp [Dir.empty, FileSt.mayPresent] at h)
+
+/-- the three ways a `SegmentMeta` object comes to life in the code
+(1 `SegmentMetaInventory::new_segment_meta`: a fresh segment id, none of its files exists yet;
+ 2 `with_max_doc` / `with_delete_meta` (`TrackedObject::map`): derived from a live meta, same
+   segment files plus possibly a delete-file name that was never created;
+ 3 `IndexMeta::deserialize` of the current meta.json: files of the committed segments) -/
+inductive MetaSource (s : FSt) : List Path → Prop
+  | fresh (fs : List Path) (h : ∀ p ∈ fs, s.base.managed.contains p = false) : MetaSource s fs
+  | derived (fs l : List Path) (hl : l ∈ s.base.live)
+      (h : ∀ p ∈ fs, p ∈ l ∨ s.base.managed.contains p = false) : MetaSource s fs
+  | deserialized (fs : List Path) (h : ∀ p ∈ fs, p ∈ s.metaFiles ∨ s.base.managed.contains p = false) :
+      MetaSource s fs
+
+/-- **no resurrection is derived for the code's meta sources**: in every state satisfying the
+fine-grained invariant, a meta that comes to life in one of the three ways above satisfies the
+no-resurrection condition of the discipline — it is not an extra assumption for them.
+(That these are the only places a tracked meta is constructed is extracted:
+`C10_meta_sources_extracted`.) -/
+theorem C10_no_resurrection_for_code_sources (s : FSt) (h : FInv s) (fs : List Path)
+    (hs : MetaSource s fs) (g r : Bool) : okF g r s (.track fs) = true := by
+  simp only [okF, okEv, List.all_eq_true, Bool.or_eq_true, Bool.not_eq_true']
+  intro p hp
+  cases hs with
+  | fresh hf => exact Or.inl (hf p hp)
+  | derived l hl hd =>
+    rcases hd p hp with hpl | hm
+    · right
+      simp only [living, List.contains_eq_mem, List.mem_cons, List.mem_flatten, decide_eq_true_eq]
+      exact Or.inr ⟨l, hl, hpl⟩
+    · exact Or.inl hm
+  | deserialized hd =>
+    rcases hd p hp with hpm | hm
+    · right
+      simpa using (h.metaLive p hpm).1
+    · exact Or.inl hm
+
+example : MetaSource fdemo [10, 11, 12] := .derived _ [10, 11] (by decide) (by decide)
+example : MetaSource fdemo [10, 11] := .deserialized _ (by decide)
+example : MetaSource fdemo [60, 61] := .fresh _ (by decide)
+
+/-- the source has exactly the constructor sites the three cases cover -/
+theorem C10_meta_sources_extracted : Gen.META_SOURCE_SITES = [2, 2] := by decide
 
 end TantivyModel.C10
